@@ -14,10 +14,10 @@ assert len(MODEL) == 3 and set(MODEL) <= {"0", "1"}, "VERIF_C37_MODEL must be th
 FIX_TEXT, FIX_EOF, FIX_ICE = (c == "1" for c in MODEL)
 
 if MODEL == "111":
-    THEOREMS = ["C37_report_roundtrip_repaired", "C37_roundtrip_all_variants"]
+    THEOREMS = ["C37_report_roundtrip_repaired", "C37_roundtrip_all_variants", "C37_to_proto_injective"]
 else:
     THEOREMS = ["C37_report_roundtrip_refuted", "C37_report_roundtrip_refuted_exists", "C37_report_roundtrip_partial",
-                "C37_report_roundtrip_repaired", "C37_roundtrip_all_variants", "C37_repairs_independent"]
+                "C37_report_roundtrip_repaired", "C37_roundtrip_all_variants", "C37_repairs_independent", "C37_to_proto_injective"]
 AXIOMS_OK = []
 TRUSTED = ["hand-written Gallina model of Report.ToProto and Report.AppendFromProto (Model/ReportCodec.v), variant " + MODEL,
            "correspondence harness (harness/cmd/reportcodec) + verif hook report.VerifNewDiagnostic/VerifViewDiagnostic",
